@@ -74,10 +74,10 @@ def same_prefix(ctx, rule):
     ctx.check(len(srt) == 1 and q.wild("slice::sort*_by_key(*,%s(*len(p1)))" % LAM, srt[0]), rule, fn, "sorted-by-len", "the lists are ordered by length before the helper runs (it indexes the first as the shortest)", detail=str(srt))
     h = ctx.body(HELP)
     sl = [q.shape(h.expr_of_call(t)) for bi, t in q.calls_to(h, "Index::index")]
-    ctx.check(sl == ["arg1[0][RangeToInclusive{end:some(var:Option<usize>)}]"], rule, h.path, "prefix-of-first", "the helper returns a leading slice of the first (shortest) list", detail=str(sl))
+    ctx.check(sl == ["arg1[0][RangeToInclusive{end:try(var:Option<usize>)}]"], rule, h.path, "prefix-of-first", "the helper returns a leading slice of the first (shortest) list", detail=str(sl))
     cmp_ = [q.shape(h.expr_of_call(t)) for bi, t in h.calls() if q.nice(t.get("callee")) in ("PartialEq::ne", "PartialEq::eq")]
-    ENUM = "some(Iterator::next(var:Enumerate<Iter<&str>>))"
-    ok = len(cmp_) == 1 and cmp_[0] == q.eqs("ne", "slice::get(some(Iterator::next(var:Iter<Cow<[&str]>>)),%s.0)" % ENUM, "Option::Some{0:%s.1}" % ENUM)
+    ENUM = "try(Iterator::next(var:Enumerate<Iter<&str>>))"
+    ok = len(cmp_) == 1 and cmp_[0] == q.eqs("ne", "slice::get(try(Iterator::next(var:Iter<Cow<[&str]>>)),%s.0)" % ENUM, "Option::Some{0:%s.1}" % ENUM)
     ctx.check(ok, rule, h.path, "componentwise", "components are compared position by position with the non-panicking get", detail=str(cmp_)[:300])
     # the scan stops at the first mismatch (a *prefix*): the mismatch edge leaves the component loop
     inner = [bi for bi, t in q.calls_to(h, "Iterator::next") if "Enumerate<Iter<&str>>" in q.shape(q.arg_expr(h, t, 0))]
